@@ -81,13 +81,14 @@ class NL:
     def eval8(self, in_vals, st_vals):
         """8-valued: lists of numpy code arrays. Returns dict sig -> code array."""
         v = {}
+        shape = next((a.shape for a in list(in_vals) + list(st_vals)), None)
         for k in range(self.n_in): v[f'i{k}'] = in_vals[k]
         for k, (kind, _) in enumerate(self.states):
             v[f'q{k}'] = st_vals[k]
             if kind == 'dff': v[f'n{k}'] = ref.table8('inv', 1)[st_vals[k]]
         for k in self.gate_order():
             kind, ops = self.gates[k]
-            v[f'g{k}'] = ref.gate8(kind, [None if o is None else v[o] for o in ops])
+            v[f'g{k}'] = ref.gate8(kind, [None if o is None else v[o] for o in ops], shape=shape)
         return v
 
     def next_state2(self, in_vals, st_vals, mask):
